@@ -28,7 +28,7 @@ pub fn est_reads(ops: &[Op], rounds0: u32) -> usize {
             Op::U32 | Op::U64 => total += per(rounds),
             Op::Fill(n) => total += per(rounds) * ((*n as usize + 7) / 8),
             Op::TimerStats(_) => total += 4,
-            Op::SetRounds(r) => rounds = *r as usize,
+            Op::SetRounds(r) if *r > 0 => rounds = *r as usize,
             Op::CloneThen(_) => total += per(rounds),
             Op::CloneFromThen(_) => total += 2 * per(rounds),
             _ => {}
@@ -73,7 +73,9 @@ pub fn gen_jitter_ops(rng: &mut Prng, max_ops: u64, c16_bias: bool) -> Vec<Op> {
                 _ => rng.range(0, 40) as u32,
             }),
             3 => Op::TimerStats(rng.chance(1, 2)),
-            4 => Op::SetRounds(match rng.below(4) {
+            4 => Op::SetRounds(match if rng.chance(1, 12) { 4 } else { rng.below(4) } {
+                // 0 is rejected with the documented panic: the generator must be exactly what it was
+                4 => 0,
                 0 => rng.range(1, 255) as u8,
                 _ => rng.range(1, 6) as u8,
             }),
@@ -508,7 +510,14 @@ pub fn run_jitter_history(spec: &Spec, st: &mut Stats, cfg: &JitterRunCfg) -> Ru
                 }
                 Op::SetRounds(r) => {
                     if *r == 0 {
-                        continue; // documented panic; never issued
+                        // the documented panic: the call is rejected, so the procedure continues with the
+                        // round count it had (a caller may well survive the panic: catch_unwind, a worker thread)
+                        let g = p.g.as_mut();
+                        match guard(|| g.jitter().unwrap().set_rounds(0)) {
+                            Err(SutFail::Panic(_)) => st.count("probe:set_rounds_0_rejected"),
+                            _ => return Err(StepErr::End(RunEnd::Discard("set_rounds_0_did_not_panic".into()))),
+                        }
+                        continue;
                     }
                     let g = p.g.as_mut();
                     let rr = *r;
